@@ -172,7 +172,9 @@ def run(ck):
     ck.traces += nd
     ck.extra["filter_matrix_renders_compared_sync_vs_async"] = nd
     # native environments
+    # (template sets too: self.b() / super() / imported macros return what the environment's concat makes of the chunks)
     sub = [c for c in cases if len(c["tpls"]) == 1][: 150 if quick else 3000]
+    sub += [c for c in cases if len(c["tpls"]) > 1][: 90 if quick else 2000]
     total = 0
     with ProcessPoolExecutor(max_workers=16) as ex:
         for mism, n in ex.map(_native_work, sub, chunksize=8):
